@@ -14,7 +14,10 @@ use std::cell::RefCell;
 use std::rc::Rc;
 
 fn seeds() -> Vec<Option<u64>> {
-    vec![None, Some(0), Some(1), Some(42), Some(1 << 32), Some(u64::MAX - 40), Some(u64::MAX - 1), Some(u64::MAX)]
+    // the last group sits around 0x9E3779B97F4A7C15, the constant that separates a chain's proposal stream from its
+    // acceptance stream: seeds there make the derived proposal seeds small numbers (0, 1, 2, ...)
+    let c = 0x9E37_79B9_7F4A_7C15u64;
+    vec![None, Some(0), Some(1), Some(42), Some(1 << 32), Some(u64::MAX - 40), Some(u64::MAX - 1), Some(u64::MAX), Some(c), Some(c - 1), Some(c - 2), Some(c - 3), Some(c - 65), Some(c + 1)]
 }
 
 fn first_pair<T: PartialEq>(v: &[T]) -> Option<(usize, usize)> {
@@ -193,8 +196,34 @@ fn hmc_case(ctx: &Ctx, n: usize, seed: Option<u64>) {
     }
 }
 
+/// The library's own seedable proposal: different seeds give different noise, the same seed the same noise.
+fn proposal_seeding(ctx: &Ctx) {
+    use mini_mcmc::distributions::IsotropicGaussian;
+    let seeds: Vec<u64> = vec![0, 1, 2, 3, 41, 42, 1 << 32, 1 << 63, u64::MAX - 1, u64::MAX];
+    let draws: Vec<Vec<u64>> = seeds.iter().map(|s| IsotropicGaussian::<f64>::new(1.0).set_seed(*s).sample(&[0.0, 0.0, 0.0]).iter().map(|x| x.to_bits()).collect()).collect();
+    ctx.evals(1);
+    ctx.transitions(seeds.len() as u64);
+    for i in 0..seeds.len() {
+        let again: Vec<u64> = IsotropicGaussian::<f64>::new(1.0).set_seed(seeds[i]).sample(&[0.0, 0.0, 0.0]).iter().map(|x| x.to_bits()).collect();
+        if again != draws[i] {
+            ctx.violation(Violation::new("C08:proposal-seed-not-reproducible", format!("IsotropicGaussian seeded twice with {} draws different noise", seeds[i]), json!({"sampler": "proposal", "seed": seeds[i].to_string()})));
+        }
+        for j in i + 1..seeds.len() {
+            if draws[i] == draws[j] {
+                ctx.violation(Violation::new(
+                    "C08:proposal-seeds-collide",
+                    format!("IsotropicGaussian::set_seed({}) and set_seed({}) give the same noise stream", seeds[i], seeds[j]),
+                    json!({"sampler": "proposal", "seed": seeds[i].to_string(), "other": seeds[j].to_string()}),
+                ));
+            }
+        }
+    }
+    ctx.outcome("proposal-seeding-checked", 1);
+}
+
 pub fn run(ctx: &Ctx) {
     ctx.rule("grid: n_chains in the stated set x seeds {unseeded, 0, 1, 42, 2^32, u64::MAX-40, u64::MAX-1, u64::MAX} x {MH with the library proposal, MH with a user-defined seedable proposal, HMC (recorded momenta/uniforms per row), NUTS}; all chains start from one common state; pairwise comparison of generators, first proposals, recorded draws and 64-step (MH) / 3-step trajectories. states = distinct (sampler, n_chains, seed) configurations; transitions = chain steps executed; non-trivial = a configuration whose chains are pairwise distinct");
+    proposal_seeding(ctx);
     let ns: Vec<usize> = if ctx.tier.thorough() { (2..=64).collect() } else { vec![2, 3, 8, 64] };
     ctx.extra("n_chains", json!(if ctx.tier.thorough() { "2..=64 (all)".to_string() } else { format!("{ns:?}") }));
     let jobs: Vec<(usize, Option<u64>)> = ns.iter().flat_map(|n| seeds().into_iter().map(move |s| (*n, s))).collect();
@@ -212,6 +241,7 @@ pub fn check_case(ctx: &Ctx, case: &Value) {
     let n = case["n_chains"].as_u64().unwrap_or(2) as usize;
     let seed = case["seed"].as_str().and_then(|s| s.parse::<u64>().ok());
     match case["sampler"].as_str() {
+        Some("proposal") => proposal_seeding(ctx),
         Some("MH") => mh_case(ctx, n, seed),
         Some("NUTS") => nuts_case(ctx, n, seed),
         Some("HMC") => hmc_case(ctx, n, seed),
